@@ -182,8 +182,11 @@ class ProgRun:
                     hook(drv, ref, idx, st, active)
                 self.dig.add((st["k"], obs))
 
-        self.run.run(body)
-        stats["decisions"] = self.run.decisions
+        try:
+            self.run.run(body)
+        finally:
+            self.dig.add_events(self.run.events)
+            stats["decisions"] = self.run.decisions
         return self
 
 
